@@ -12,6 +12,7 @@ CLAIMED = {
  "C16": ("model_checking", "Closure of (real Packetizer/Depacketizer/loop/PacketFIFO/Arbiter/Dispatcher x producers x byte-layout scoreboard written from the Header definition) under every valid/ready/sel schedule for a menu of header layouts, data widths and packet lengths.", TB, MC, "fsmc"),
  "C12": ("model_checking", "Closure of (real CSRBank FHDL x register-file reference derived from the description) under every bus operation (all words, first word past the bank, same offset in another page; 3 data values; reads) x device-side inputs per cycle, for register menus covering sizes around the bus word, atomic writes, device-writable storages, read/write statuses, raw CSRs, fields with pulse/reset/offset, fixed locations, bus 8/32, big/little ordering, paging.", TB, MC, "fsmc"),
  "C15": ("model_checking", "Closure of (real EventManager + real CSRBank [+ SharedIRQ] x reference model of pending/status/enable/irq) under every trigger vector x every CSR bus operation per cycle, so trigger and clear coincide in every alignment; all 1..2-source mixes (quick) and 3-source mixes (thorough), bus 8/32.", TB, MC, "fsmc"),
+ "C17": ("model_checking", "Closure of the real Encoder(1) over all 268 symbols x ce from every reachable projected state (537 states); code table measured from that run; all 143 648 ordered symbol pairs x both disparities for run length / comma; Decoder on all 1024 words from three pre-states (history independence, invalid flag, round trip, ce freeze); multi-word lanes vs the serial encoding; StreamEncoder/StreamDecoder under all valid/ready schedules.", TB + " The projection of feed-forward output registers is checked by a cone-of-influence walk.", MC + " (projected state) + exhaustive symbol-pair enumeration on the measured code table", "fsmc"),
  "C18": ("exploration", "Real ECCEncoder/ECCDecoder FHDL evaluated on all data words x all single and double flips for k<=8 (quick) / k<=11 (thorough), structured word sets x all flips for larger k up to 128, enable=0 pass-through, geometry helpers vs an independent Hamming construction for k=1..256.", "Trusted: fast stepper (sampled conformance vs the real Evaluator, violations replayed on run_simulation), the independent Hamming reference; for large k the claim is 'all flips x this word set', not all words.", "exhaustive enumeration of inputs x fault patterns over the real combinational FHDL against a reference code", "seqx"),
 }
 REASONS = {}
